@@ -215,23 +215,6 @@ theorem styleOf_setNodes (v : Nat) (p : Path) :
 
 theorem styleOf_empty (p : Path) : ({} : Styles).styleOf p = 0 := rfl
 
-theorem applyStep_irrel (a b : Styles) (s : Step) : applyStep a s = applyStep b s := by
-  cases s <;> rfl
-
-theorem foldl_applyStep :
-    ∀ (h : List Step) (a : Styles), h.foldl applyStep a =
-      match h.getLast? with
-      | none => a
-      | some s => applyStep {} s
-  | [], a => rfl
-  | x :: xs, a => by
-    rw [List.foldl_cons, foldl_applyStep xs]
-    cases xs with
-    | nil => simp [applyStep_irrel a {} x]
-    | cons y ys =>
-      have : (y :: ys).getLast? = some ((y :: ys).getLast (by simp)) := List.getLast?_eq_some_getLast (by simp)
-      rw [List.getLast?_cons_cons, this]
-
 /-- what the text shows of a label list: the nested backend drops a line whose joined label is empty -/
 def shown (o : Opts) (ls : List ELabel) : List ELabel :=
   if o.nested && blankLabels ls then [] else ls
@@ -355,37 +338,87 @@ theorem roiTrans_mem (st : Styles) (act : List Path) (ts : List MTrans) (t : MTr
     t ∈ roiTrans st act ts ↔ t ∈ ts ∧ (t.source ∈ act ∨ st.edgeStyled t.source t.dest = true) := by
   simp [roiTrans, List.mem_filter]
 
-/-! ### the history only matters through its last step -/
+/-! ### what a history leaves behind -/
 
+/-- (source recorded by the last `begin` not followed by a regeneration, names marked active since
+the last reset) -/
+def sumStep : (Option Path × List Path) → Step → (Option Path × List Path)
+  | _, .begin pre src _ => (some (pre ++ src), [])
+  | (p, a), .finish cur => (p, a ++ cur)
+  | _, .regen cur => (none, cur)
+
+def summary (init : List Path) (h : List Step) : Option Path × List Path := h.foldl sumStep (none, init)
+
+/-- the (global) name of the source of the last executed transition; none after a regeneration -/
+def lastSource (init : List Path) (h : List Step) : Option Path := (summary init h).1
+
+/-- the names marked active since the graph was last reset -/
+def marked (init : List Path) (h : List Step) : List Path := (summary init h).2
+
+/-- the model state the graph was last told about -/
 def curOf (init : List Path) (h : List Step) : List Path :=
   match h.getLast? with
   | none => init
-  | some (.change _ _ _ c) => c
+  | some (.begin _ _ _) => []
+  | some (.finish c) => c
   | some (.regen c) => c
 
-/-- the (global) name of the source of the last executed transition; none after a regeneration -/
-def lastSource (h : List Step) : Option Path :=
-  match h.getLast? with
-  | some (.change pre src _ _) => some (pre ++ src)
-  | _ => none
+def Agrees (s : Styles) (x : Option Path × List Path) : Prop :=
+  ∀ p, s.styleOf p = if p ∈ x.2 then 1 else if x.1 = some p then 2 else 0
+
+theorem agrees_step (s : Styles) (x : Option Path × List Path) (st : Step) (h : Agrees s x) :
+    Agrees (applyStep s st) (sumStep x st) := by
+  intro p
+  obtain ⟨xp, xa⟩ := x
+  cases st with
+  | begin pre src dst =>
+    simp only [applyStep, sumStep, setPrevious, prevKey, styleOf_setNode]
+    by_cases h2 : pre ++ src = p
+    · simp [h2]
+    · simp [h2, Styles.styleOf, alook]
+  | finish cur =>
+    simp only [applyStep, sumStep, styleOf_setNodes, h p, List.mem_append]
+    by_cases h1 : p ∈ cur
+    · simp [h1]
+    · simp only [h1, or_false, if_false]
+      by_cases h3 : p ∈ xa <;> by_cases h4 : xp = some p <;> simp [h3, h4]
+  | regen cur =>
+    simp [applyStep, sumStep, styleOf_setNodes, styleOf_empty]
+
+theorem agrees_foldl : ∀ (h : List Step) (s : Styles) (x : Option Path × List Path),
+    Agrees s x → Agrees (h.foldl applyStep s) (h.foldl sumStep x)
+  | [], _, _, ha => ha
+  | st :: r, s, x, ha => by
+    simp only [List.foldl_cons]
+    exact agrees_foldl r _ _ (agrees_step s x st ha)
 
 theorem styleOf_after (init : List Path) (h : List Step) (p : Path) :
     (stylesAfter init h).styleOf p =
-      if p ∈ curOf init h then 1 else if lastSource h = some p then 2 else 0 := by
-  unfold stylesAfter curOf lastSource
-  rw [foldl_applyStep]
-  cases hl : h.getLast? with
-  | none => simp [styleOf_setNodes, styleOf_empty]
-  | some s =>
-    cases s with
-    | regen c => simp [applyStep, styleOf_setNodes, styleOf_empty]
-    | change pre src dst c =>
-      simp only [applyStep, styleOf_setNodes, setPrevious, styleOf_setNode, prevKey]
-      by_cases h1 : p ∈ c
-      · simp [h1]
-      · by_cases h2 : pre ++ src = p
-        · simp [h1, h2]
-        · simp [h1, h2, Styles.styleOf, alook]
+      if p ∈ marked init h then 1 else if lastSource init h = some p then 2 else 0 := by
+  have h0 : Agrees (({} : Styles).setNodes init 1) (none, init) := by
+    intro q; simp [styleOf_setNodes, styleOf_empty]
+  exact agrees_foldl h _ _ h0 p
+
+theorem summary_snoc (init : List Path) (h : List Step) (st : Step) :
+    summary init (h ++ [st]) = sumStep (summary init h) st := by
+  simp [summary, List.foldl_append]
+
+/-- what the graph was last told is marked -/
+theorem curOf_marked (init : List Path) (h : List Step) : ∀ p ∈ curOf init h, p ∈ marked init h := by
+  intro p hp
+  rcases List.eq_nil_or_concat h with rfl | ⟨h', st, rfl⟩
+  · simpa [curOf, marked, summary] using hp
+  · simp only [List.concat_eq_append] at hp ⊢
+    simp only [curOf, List.getLast?_append, List.getLast?_singleton, Option.some_or] at hp
+    simp only [marked, summary_snoc]
+    cases st with
+    | begin pre src dst => simp at hp
+    | finish c =>
+      generalize summary init h' = x
+      obtain ⟨xp, xa⟩ := x
+      simp only [sumStep, List.mem_append]
+      exact Or.inr hp
+    | regen c => simpa [sumStep] using hp
 
 /-! ### top-level nodes carry the class of their style -/
 
